@@ -203,6 +203,40 @@ fn diags_of(path: &str, src: &str, scripts: &[(String, String)]) -> Result<Vec<D
     compile_sources(&[(path.to_string(), src.to_string())], scripts, false).map(|(_, d)| d)
 }
 
+/// The diagnostics of a source are reported by every `add_tmpl` call that is given it: adding the same source again under
+/// the same path (a rebuild of an unchanged file), after another file, or after a removal must report them again.
+/// Returns a description when some call reports something else than the first one.
+fn readd_problem(path: &str, src: &str, first: &[Diag]) -> Option<String> {
+    let key = |d: &Diag| (d.kind.clone(), d.level, d.start, d.end);
+    let want: Vec<_> = first.iter().map(key).collect();
+    let res = std::panic::catch_unwind(|| {
+        let mut g = glass_easel_template_compiler::TmplGroup::new();
+        let mut got: Vec<(&'static str, Vec<Diag>)> = vec![];
+        g.add_tmpl(path, src);
+        got.push(("the second add_tmpl of the same path and source", g.add_tmpl(path, src).iter().map(crate::compile::diag_of).collect()));
+        g.add_tmpl("zz/other", "<view/>");
+        got.push(("an add_tmpl of the same path and source after another file was added", g.add_tmpl(path, src).iter().map(crate::compile::diag_of).collect()));
+        g.remove_tmpl(path);
+        got.push(("an add_tmpl after remove_tmpl", g.add_tmpl(path, src).iter().map(crate::compile::diag_of).collect()));
+        let mut h = glass_easel_template_compiler::TmplGroup::new();
+        h.import_group(&g);
+        got.push(("an add_tmpl into a group that imported one holding the file", h.add_tmpl(path, src).iter().map(crate::compile::diag_of).collect()));
+        got
+    });
+    match res {
+        Err(_) => Some("re-adding the source panicked".into()),
+        Ok(got) => {
+            for (what, ds) in got {
+                let have: Vec<_> = ds.iter().map(key).collect();
+                if have != want {
+                    return Some(format!("{} reported {:?}, the first add_tmpl reported {:?}", what, ds.iter().map(|d| format!("{}@{:?}", d.kind, d.start)).collect::<Vec<_>>(), first.iter().map(|d| format!("{}@{:?}", d.kind, d.start)).collect::<Vec<_>>()));
+                }
+            }
+            None
+        }
+    }
+}
+
 impl PropCheck for C15 {
     type Case = Case;
 
@@ -245,7 +279,7 @@ impl PropCheck for C15 {
     }
 
     fn owns_case(&self, v: &Value) -> bool {
-        v["garbage_sweep"].as_bool() != Some(true)
+        v["garbage_sweep"].as_bool() != Some(true) && v["prefix_sweep"].as_bool() != Some(true)
     }
 }
 
@@ -306,6 +340,16 @@ pub fn eval_case(c: &Case) -> Outcome {
                     }
                 }
                 let max = ds.iter().map(|d| d.level).max().unwrap_or(0);
+                if max >= inj.defect.level() {
+                    if let Some(p) = readd_problem(&main.path, &bad, &ds) {
+                        out.failures.push(Failure {
+                            sig: format!("C15|defect-not-flagged-on-re-add|{:?}", inj.defect),
+                            tag: None,
+                            what: format!("{:?} ({}): {} ; source {:?}", inj.defect, how, p, crate::util::truncate(&bad, 400)),
+                            detail: json!({"source": bad, "how": how}),
+                        });
+                    }
+                }
                 if max < inj.defect.level() {
                     out.failures.push(Failure {
                         sig: format!("C15|defect-not-flagged|{:?}", inj.defect),
@@ -453,6 +497,137 @@ impl PropCheck for C15Garbage {
     }
 }
 
+// ---------------------------------------------------------------------------------------------------------------
+// prefix sweep: every attribute name of two or three colon-separated segments over a pool of documented prefixes,
+// documented directives and other words
+
+const PREFIX_SEGS: &[&str] = &["wx", "bind", "mut-bind", "catch", "capture-bind", "capture-mut-bind", "capture-catch", "mark", "data", "model", "change", "worklet", "generic", "extra-attr", "slot", "class", "style", "foo", "x", "if", "elif", "else", "for", "for-item", "for-index", "key", "tap", "value", "unknown", "fi", "for-items", "WX", "Bind", ""];
+const DOC_PREFIXES: &[&str] = &["wx", "bind", "mut-bind", "catch", "capture-bind", "capture-mut-bind", "capture-catch", "mark", "data", "model", "change", "worklet", "generic", "extra-attr", "slot", "class", "style"];
+const DOC_WX: &[&str] = &["if", "elif", "else", "for", "for-item", "for-index", "key"];
+
+#[derive(Clone, Debug, Serialize, Deserialize)]
+pub struct PrefixCase {
+    pub segs: Vec<String>,
+    /// 0 `<view N="1"/>`, 1 `<view N="{{a}}"/>`, 2 `<block N="{{a}}">x</block>`, 3 after other attributes
+    pub shape: u8,
+    pub prefix_sweep: bool,
+}
+
+impl PrefixCase {
+    pub fn name(&self) -> String {
+        self.segs.join(":")
+    }
+    pub fn source(&self) -> String {
+        let n = self.name();
+        match self.shape {
+            0 => format!("<view {}=\"1\"/>", n),
+            1 => format!("<view {}=\"{{{{a}}}}\"/>", n),
+            2 => format!("<block {}=\"{{{{a}}}}\">x</block>", n),
+            _ => format!("<view id=\"i\" class=\"c\" {}=\"{{{{a}}}}\" hidden>x</view>", n),
+        }
+    }
+    /// everything before the last colon is the prefix; documented = a documented prefix with a non-empty name, and for
+    /// `wx` one of the documented directives
+    pub fn documented(&self) -> bool {
+        let (name, pre) = self.segs.split_last().unwrap();
+        let pre = pre.join(":");
+        !name.is_empty() && DOC_PREFIXES.contains(&pre.as_str()) && (pre != "wx" || DOC_WX.contains(&name.as_str()))
+    }
+}
+
+pub fn prefix_cases(all: bool) -> Vec<PrefixCase> {
+    let mut out = vec![];
+    for (ai, a) in PREFIX_SEGS.iter().enumerate() {
+        for (bi, b) in PREFIX_SEGS.iter().enumerate() {
+            for shape in 0..4u8 {
+                out.push(PrefixCase { segs: vec![a.to_string(), b.to_string()], shape, prefix_sweep: true });
+            }
+            for (ci, c) in PREFIX_SEGS.iter().enumerate() {
+                // the quick tier takes every fourth three-segment name
+                if !all && (ai + 3 * bi + 5 * ci) % 4 != 0 {
+                    continue;
+                }
+                out.push(PrefixCase { segs: vec![a.to_string(), b.to_string(), c.to_string()], shape: ((a.len() + b.len() + c.len()) % 4) as u8, prefix_sweep: true });
+            }
+        }
+    }
+    // a name starting with a colon is not an attribute name at all: the first segment is never empty
+    out.retain(|c| !c.segs[0].is_empty());
+    out
+}
+
+pub struct C15Prefix;
+
+impl PropCheck for C15Prefix {
+    type Case = PrefixCase;
+
+    fn needs_worker(&self) -> bool {
+        false
+    }
+
+    fn strategy(&self) -> BoxedStrategy<PrefixCase> {
+        let all = prefix_cases(true);
+        (0..all.len()).prop_map(move |i| all[i].clone()).boxed()
+    }
+
+    fn eval(&self, _w: Option<&mut Worker>, cases: &[PrefixCase]) -> Result<Vec<Outcome>, String> {
+        let mut outs = vec![];
+        for c in cases {
+            let mut out = Outcome::default();
+            let src = c.source();
+            let documented = c.documented();
+            out.labels.push(format!("prefix-sweep:{}-segments:{}", c.segs.len(), if documented { "documented" } else { "undocumented" }));
+            out.sample = Some(json!({"source": src}));
+            out.units = 1;
+            match diags_of("p", &src, &[]) {
+                Err(p) => out.failures.push(Failure { sig: format!("C15|prefix|panic|{}", short_hash(&p)), tag: None, what: format!("compiler panicked: {} on {:?}", p, src), detail: json!({"source": src}) }),
+                Ok(ds) => {
+                    for d in &ds {
+                        if let Some(p) = loc_problem(&src, d) {
+                            out.failures.push(Failure { sig: format!("C15|bad-location|{}", d.kind), tag: None, what: format!("diagnostic location invalid: {} ; source {:?}", p, src), detail: json!({"source": src}) });
+                        }
+                    }
+                    let max = ds.iter().map(|d| d.level).max().unwrap_or(0);
+                    if !documented {
+                        out.nt.push(fnv64(src.as_bytes()));
+                        if max < 2 {
+                            out.failures.push(Failure {
+                                sig: format!("C15|prefix-not-flagged|{}-segments", c.segs.len()),
+                                tag: None,
+                                what: format!("attribute `{}`: `{}` is no documented prefix{} but the template is answered with {} ; source {:?}", c.name(), c.segs[..c.segs.len() - 1].join(":"), if c.segs[0] == "wx" { " / directive" } else { "" }, if ds.is_empty() { "no diagnostic".to_string() } else { format!("level {} only", max) }, src),
+                                detail: json!({"source": src}),
+                            });
+                        } else if let Some(p) = readd_problem("p", &src, &ds) {
+                            out.failures.push(Failure { sig: "C15|prefix-not-flagged-on-re-add".into(), tag: None, what: format!("attribute `{}`: {} ; source {:?}", c.name(), p, src), detail: json!({"source": src}) });
+                        }
+                    } else if ds.iter().any(|d| d.kind.to_lowercase().contains("prefix")) {
+                        out.failures.push(Failure {
+                            sig: "C15|documented-prefix-flagged".into(),
+                            tag: None,
+                            what: format!("attribute `{}` uses a documented prefix but is answered with {:?} ; source {:?}", c.name(), ds.iter().map(|d| d.kind.clone()).collect::<Vec<_>>(), src),
+                            detail: json!({"source": src}),
+                        });
+                    }
+                }
+            }
+            outs.push(out);
+        }
+        Ok(outs)
+    }
+
+    fn case_json(&self, case: &PrefixCase) -> Value {
+        json!({"case": serde_json::to_value(case).unwrap(), "source": case.source(), "prefix_sweep": true})
+    }
+
+    fn case_from_json(&self, v: &Value) -> Result<PrefixCase, String> {
+        serde_json::from_value(v["case"].clone()).map_err(|e| e.to_string())
+    }
+
+    fn owns_case(&self, v: &Value) -> bool {
+        v["prefix_sweep"].as_bool() == Some(true)
+    }
+}
+
 pub fn run(tier: Tier, seed: u64, findings: &Findings) -> i32 {
     let started = Instant::now();
     let cfg = RunCfg { prop: "C15", tier, seed };
@@ -471,6 +646,11 @@ pub fn run(tier: Tier, seed: u64, findings: &Findings) -> i32 {
     report.merge(super::run_regress(&C15Garbage, &cfg, findings));
     let mut r = engine::run_explicit(&C15Garbage, &cfg, garbage_cases(), 16, 4, findings);
     r.extra.insert("garbage_sweep_cases".into(), json!(r.evaluations));
+    report.merge(r);
+    // every two- and three-segment attribute name over the segment pool (exhaustive)
+    report.merge(super::run_regress(&C15Prefix, &cfg, findings));
+    let mut r = engine::run_explicit(&C15Prefix, &cfg, prefix_cases(tier == Tier::Thorough), 16, 64, findings);
+    r.extra.insert("prefix_sweep_cases".into(), json!(r.evaluations));
     report.merge(r);
     engine::finish(
         Finish {
@@ -492,6 +672,9 @@ pub fn run(tier: Tier, seed: u64, findings: &Findings) -> i32 {
 pub fn replay(v: &Value, path: &str, findings: &Findings) -> i32 {
     if v["case"]["garbage_sweep"].as_bool() == Some(true) {
         return super::replay_generic(&C15Garbage, "C15", v, path, findings);
+    }
+    if v["case"]["prefix_sweep"].as_bool() == Some(true) {
+        return super::replay_generic(&C15Prefix, "C15", v, path, findings);
     }
     if v["case"]["case"].get("input").is_some() {
         let loc = c01::C01 { cfg: gen::wxml::WxmlCfg::new(2, 3), locations: true, prop: "C15" };
